@@ -85,8 +85,8 @@ struct Engine {
     steps: usize,
     spawning_done: bool,
     thread_done: [bool; MAX_TASKS],
-    prio: [u32; MAX_TASKS],
-    low_prio: u32,
+    prio: [i64; MAX_TASKS],
+    low_prio: i64,
     change_points: Vec<usize>,
     late_released_step: Option<usize>,
     late_forced: bool,
@@ -262,7 +262,7 @@ fn pick(e: &mut Engine, ids: &[usize], cur: Option<usize>) -> usize {
                 eligible.retain(|x| *x != c);
                 if let Policy::Pct { .. } = e.policy {
                     if c < MAX_TASKS {
-                        e.low_prio = e.low_prio.saturating_sub(1);
+                        e.low_prio -= 1;
                         e.prio[c] = e.low_prio;
                     }
                 }
@@ -284,7 +284,7 @@ fn pick(e: &mut Engine, ids: &[usize], cur: Option<usize>) -> usize {
             if e.change_points.contains(&step) {
                 if let Some(c) = cur {
                     if c < MAX_TASKS {
-                        e.low_prio = e.low_prio.saturating_sub(1);
+                        e.low_prio -= 1;
                         e.prio[c] = e.low_prio;
                     }
                 }
@@ -398,7 +398,7 @@ fn setup_execution(sc: &Scenario, policy: Policy, sched_seed: u64, est_len: usiz
         if let Policy::Pct { depth } = policy {
             // random permutation of priorities 2000.. for tasks 1..; the main task is irrelevant
             let n = MAX_TASKS;
-            let mut perm: Vec<u32> = (0..n as u32).collect();
+            let mut perm: Vec<i64> = (0..n as i64).collect();
             for i in (1..n).rev() {
                 let j = e.rng.below(i as u64 + 1) as usize;
                 perm.swap(i, j);
@@ -870,7 +870,7 @@ fn json_violations(v: &[Violation]) -> String {
 fn finding_json(sc_txt: &str, sc: &Scenario, scenario_index: u64, scenario_seed: u64, sched_index: u64, sched_seed: u64, policy: &Policy, res: &ExecResult) -> String {
     format!(
         "{{\"engine\":\"B\",\"scenario_index\":{},\"scenario_seed\":{},\"sched_index\":{},\"sched_seed\":{},\"policy\":\"{}\",\"scenario\":\"{}\",\"scenario_desc\":{},\"schedule\":{},\"steps\":{},\"violations\":{},\"events\":{}}}",
-        scenario_index, scenario_seed, sched_index, sched_seed, policy.name(), sc_txt, describe_json(sc), json_u8_list(&res.schedule), res.stats.steps, json_violations(&res.violations), json_events(&res.events, 400)
+        scenario_index, scenario_seed, sched_index, sched_seed, policy.name(), sc_txt, describe_json(sc), json_u8_list(&res.schedule), res.stats.steps, json_violations(&res.violations), json_events(&res.events, std::env::var("SIMB_MAX_EVENTS").ok().and_then(|v| v.parse().ok()).unwrap_or(400))
     )
 }
 
@@ -879,6 +879,12 @@ fn finding_json(sc_txt: &str, sc: &Scenario, scenario_index: u64, scenario_seed:
 // ------------------------------------------------------------------------------------------
 
 fn choose_policy(rng: &mut Rng) -> Policy {
+    // SIMB_FORCE_POLICY=random: used by the driver to re-examine a liveness finding (step bound)
+    // under the one policy that is fair with probability 1
+    if std::env::var("SIMB_FORCE_POLICY").map(|v| v == "random").unwrap_or(false) {
+        let _ = rng.below(10);
+        return Policy::Random;
+    }
     match rng.below(10) {
         0..=3 => Policy::Random,
         4..=5 => Policy::Sticky { stay: rng.range(8, 14) },
